@@ -55,6 +55,7 @@ func c12Scenarios(thorough bool) []c12Scenario {
 	}
 	deeps := []interface{}{deep("x", "y", "a"), deep("a"), deep("q", "a", "z", "w")}
 	shared := []interface{}{d1}
+	kinds := []interface{}{map[string]interface{}{"n": 7, "m": []int{7}}, map[string]interface{}{"n": 7.0, "m": []float64{7}}, map[string]interface{}{"n": uint8(7), "m": []interface{}{7, 7.0, float32(7)}}, map[string]interface{}{"n": "7", "m": []string{"7"}}}
 	typed := []interface{}{map[string]interface{}{"n": []int{7, 0}}, map[string]interface{}{"n": []float64{0, 1.5}}, map[string]interface{}{"n": []bool{false}}}
 	mixed := []interface{}{d1, d2, d3}
 	sc := []c12Scenario{
@@ -85,6 +86,9 @@ func c12Scenarios(thorough bool) []c12Scenario {
 		{name: "invalid pattern in quantifier 2x1", src: "any l as x { x matches `*` }", threads: 2, ops: 1, data: mixed, bound: -1},
 		{name: "invalid pattern filter 2x1", src: "f matches `(`", filter: true, threads: 2, ops: 1, data: []interface{}{cont}, bound: -1},
 		{name: "uncoercible literal over typed slices 2x2", src: "`abc` in n or n contains `1.5`", threads: 2, ops: 2, data: typed, bound: -1},
+		// one selector meeting DIFFERENT kinds in concurrent calls (anything remembered about the literal per node is contended)
+		{name: "numeric literal over mixed kinds 2x2", src: "n == 7 or `7` in m", threads: 2, ops: 2, data: kinds, bound: -1},
+		{name: "numeric literal over mixed kinds 3x1", src: "n != 7 and m contains `7`", threads: 3, ops: 1, data: kinds, bound: -1},
 		{name: "absent field and index errors 2x2", src: "s.zz == 1 or l.9 == `a` or zz.q is empty", threads: 2, ops: 2, data: mixed, bound: -1},
 		{name: "matches 3x2 first use (bounded)", src: "s matches `a+`", threads: 3, ops: 2, data: mixed, bound: 2},
 		{name: "two caches 3x1 (bounded)", src: "s matches `a` or t matches `b`", threads: 3, ops: 1, data: mixed, bound: 2},
